@@ -31,6 +31,7 @@ def main():
             rc, out = sh(["git", "apply", "-3", "--whitespace=nowarn", patch], cwd=wt)
         assert rc == 0, "patch does not apply: " + out
         # refresh the patch against the current HEAD
+        sh(["git", "add", "-A", "-N", "--", "truc", "truc_runtime"], cwd=wt)
         rc, newpatch = sh(["git", "diff"], cwd=wt)
         rc, out = sh("cargo test --workspace --no-fail-fast --offline 2>&1 | grep -E '^test result|FAILED|^error' ", cwd=wt)
         ran.append({"cmd": "cargo test --workspace --no-fail-fast --offline (with patch)", "out": out.strip().splitlines()[-12:]})
